@@ -38,6 +38,9 @@ def zoo_task(t):
     out = {"n": 0, "fails": [], "skipped": []}
     for name in names:
         e = Z[name]
+        if e.has("illconditioned"):
+            out["skipped"].append(name + ": inverse amplifies by 1e10 (finite differences are no reference)")
+            continue
         if e.has("umnn") or e.has("discrete"):
             out["skipped"].append(name + (": UMNN (third-party autograd Function, float32 internals)" if e.has("umnn") else ": discrete distribution"))
             continue
